@@ -62,18 +62,18 @@ def excluded(spec):
             return "usage mask with bits outside the enumeration (silently dropped)"
     for i in _infos(spec):
         if i.get("params") is None:
-            return "key wrapping data: key information without cryptographic parameters (General Failure)"
+            return "key wrapping data: key information without cryptographic parameters (not storable)"
         if not any(i["params"].values()):
             return "key wrapping data: cryptographic parameters with only falsy values (dropped)"
     if o.get("prime") is not None and o["prime"] >= 2 ** 63:
-        return "split key prime field size >= 2**63 (General Failure at commit)"
+        return "split key prime field size >= 2**63 (not storable: General Failure at commit)"
     if o.get("type") == "SecretData" and (o.get("fmt", "OPAQUE") != "OPAQUE" or "alg" in o or "len" in o):
         return "secret data key block with format / algorithm / length (discarded)"
     if o.get("type") == "Certificate" and o.get("ctype") != "X_509":
-        return "certificate type other than X.509 (General Failure)"
+        return "certificate type other than X.509 (not storable)"
     if o.get("type") == "Certificate" and any(n in ("Cryptographic Algorithm", "Cryptographic Length")
                                               for n, _ in attrs):
-        return "certificate with Cryptographic Algorithm / Length attribute (General Failure)"
+        return "certificate with Cryptographic Algorithm / Length attribute (not storable)"
     if path == "pie":
         g = X.group_by_name(spec.get("attrs", []))
         if spec["how"] == "register" and len(g.get("Name", [])) > 1:
